@@ -1,6 +1,8 @@
 import OjgVerif.Reuse.Lemmas
 import OjgVerif.Props.C01
 import OjgVerif.Gen.ReuseFacts
+import OjgVerif.Reuse.MapPool
+import OjgVerif.Gen.MapPool
 /-! # C07 — reused and pooled parsers and writers behave like fresh ones (model level)
 
 Parsers (oj.Parser, gen.Parser, oj.Tokenizer, oj.Validator — the strict-JSON machine of
@@ -441,5 +443,116 @@ theorem C07_struct_cache_before : ¬ NestedPlanIndependent false := by
   intro hn
   obtain ⟨c1, c2, h1, h2, hne⟩ := typeStruct_plain_only
   exact hne (hn c1 c2 h1 h2 7 true)
+
+/-! ## The `Reuse` map pool of oj.Parser / gen.Parser / sen.Parser (`p.maps`, `p.mi`)
+
+Model and unbounded proofs: `Reuse/MapPool.lean` (maps as identities, a heap for their contents, the
+pool, the index; documents and calls of any length from any state any history has left). Here: the
+fact over the regenerated source shape (`Gen/MapPool.lean`, tools/extract/reuse_mappool.go) that the
+code is the model's `openObj` and not the mutant `openObjBad`, and the property-level statements
+over the step function THE SOURCE SELECTS (`poolStep mapPoolAsModelled`): when `p.mi++` is moved
+into the `else` branch (seeded change C18-m8) the generated `miIncDirect` becomes `false`,
+`mappool_index_unconditional` fails, and with it every theorem below. -/
+
+section MapPoolSection
+open OjgVerif.Reuse.MapPool
+
+/-- the shape `Reuse/MapPool.lean` assumes, for each of the three parsers: in `parseBuffer`'s
+`switch p.mode[b]` the `case openObject:` clause has one `if p.Reuse {` whose body holds `p.mi++` as
+a DIRECT statement (the only write of `p.mi` in the clause); the inner `if p.mi < len(p.maps)` takes
+`p.maps[p.mi]` and clears it and writes neither index nor pool; its else makes a map and appends it;
+without Reuse a map is made; the writes of `p.mi` in `parseBuffer` are that `p.mi++` and `p.mi = 0`
+in the document-delivered block; `Parse` and `ParseReader` set `p.mi = 0` unconditionally; and the
+pool is otherwise only ever replaced by an empty one -/
+def mapPoolAsModelled : Bool :=
+  Gen.MapPool.pools.map (·.file) == ["oj/parser.go", "gen/parser.go", "sen/parser.go"] &&
+  Gen.MapPool.pools.all fun p =>
+    p.found && p.reuseIf && p.miIncDirect && p.miWritesInClause == 1 &&
+    p.innerCond == "p.mi < len(p.maps)" && p.thenTakes && p.thenClears && !p.thenWritesIndexOrPool &&
+    p.elseMakes && p.elseAppends && p.offMakes &&
+    p.miWrites == [("openObject", "p.mi++"), ("doc-end", "p.mi = 0")] &&
+    p.fileWrites.contains ("Parse", "p.mi = 0", "direct") &&
+    p.fileWrites.contains ("ParseReader", "p.mi = 0", "direct") &&
+    (p.fileWrites.filter fun w => w.1 == "parseBuffer").map (·.2.1)
+      == ["p.maps = append(p.maps, m)", "p.mi++", "p.mi = 0"] &&
+    (p.fileWrites.filter fun w => w.1 != "parseBuffer").all fun w =>
+      w.2.1 == "p.mi = 0" || w.2.1 == "p.maps = make([]map[string]any, 0, 16)" ||
+      w.2.1 == "p.maps = make([]Object, 0, 16)"
+
+/-- the source as it is. With `p.mi++` inside the `else` branch `miIncDirect` is `false` and this
+proof fails. -/
+theorem mappool_index_unconditional : mapPoolAsModelled = true := by decide
+
+/-- the `case openObject:` step the source selects: the model's, or the mutant's -/
+def poolStep {α : Type} (unconditional : Bool) (reuse : Bool) : α → St α → Nat × St α :=
+  if unconditional then openObj reuse else openObjBad reuse
+
+/-- **Within every document of a call each object gets its own map** — Reuse on or off, documents
+and calls of any length, from any state earlier calls have left -/
+theorem C07_mappool_distinct {α : Type} (reuse : Bool) (docs : List (List α)) (s : St α) (w : WF s) :
+    ∀ r ∈ (runCallW (poolStep mapPoolAsModelled reuse) docs s).1, r.ids.Nodup := by
+  rw [mappool_index_unconditional]
+  exact call_distinct reuse docs s w
+
+/-- **A call on a used parser (Reuse on or off) delivers the values a new parser delivers**: each
+document's objects hold exactly that document's contents when it is delivered -/
+theorem C07_mappool_values_fresh {α : Type} (reuse : Bool) (docs : List (List α)) (s : St α) (w : WF s) :
+    values (runCallW (poolStep mapPoolAsModelled reuse) docs s).1 = docs.map (List.map some) ∧
+    values (runCallW (poolStep mapPoolAsModelled reuse) docs s).1
+      = values (runCallW (poolStep mapPoolAsModelled reuse) docs (St.init : St α)).1 := by
+  rw [mappool_index_unconditional]
+  exact ⟨call_values reuse docs s w, reuse_values_eq_fresh reuse docs s w⟩
+
+/-- **Earlier results are overwritten only with Reuse, and then exactly the pooled maps below the
+object count of one of the call's documents** (the documented price of Reuse); every other map —
+and, with Reuse off, every map that existed before the call — keeps its content; an overwritten map
+holds the content of one of this call's objects -/
+theorem C07_mappool_clobber_only_with_reuse {α : Type} (reuse : Bool) (docs : List (List α)) (s : St α)
+    (w : WF s) (x : Nat) (hx : x < s.fresh) :
+    (x ∈ touched (runCallW (poolStep mapPoolAsModelled reuse) docs s).1
+      ↔ reuse = true ∧ ∃ d ∈ docs, x ∈ s.pool.take d.length) ∧
+    (x ∉ touched (runCallW (poolStep mapPoolAsModelled reuse) docs s).1 →
+      (runCallW (poolStep mapPoolAsModelled reuse) docs s).2.heap x = s.heap x) ∧
+    (x ∈ touched (runCallW (poolStep mapPoolAsModelled reuse) docs s).1 →
+      ∃ d ∈ docs, ∃ a ∈ d, (runCallW (poolStep mapPoolAsModelled reuse) docs s).2.heap x = some a) ∧
+    (reuse = false → (runCallW (poolStep mapPoolAsModelled reuse) docs s).2.heap x = s.heap x) := by
+  rw [mappool_index_unconditional]
+  refine ⟨earlier_results_clobbered_iff_reuse reuse docs s w x hx, untouched_kept reuse docs s x,
+    clobbered_content reuse docs s x, ?_⟩
+  intro hr
+  subst hr
+  exact reuse_off_untouched docs s w x hx
+
+/-- hypotheses satisfiable: the state one earlier call with three objects leaves, an earlier map in
+the pool below 2 -/
+example : WF used ∧ (1 : Nat) < used.fresh ∧ 1 ∈ used.pool.take ([20, 21] : List Nat).length :=
+  ⟨WF_runCall true _ WF_init, by decide, by decide⟩
+
+/-- the documented clobbering, concretely (witness): map 1, returned by a first call holding 11,
+holds 21 after a second call with Reuse and two objects, and still 11 if the second call has Reuse
+off -/
+theorem C07_mappool_clobber_witness :
+    1 ∈ touched (runCall true [[10, 11, 12]] (St.init : St Nat)).1 ∧ used.heap 1 = some 11 ∧
+    (runCallW (poolStep mapPoolAsModelled true) [[20, 21]] used).2.heap 1 = some 21 ∧
+    (runCallW (poolStep mapPoolAsModelled false) [[20, 21]] used).2.heap 1 = some 11 := by
+  rw [mappool_index_unconditional]
+  exact clobber_witness
+
+/-- the states every history reaches are well-formed (so the theorems above apply after any
+sequence of complete or aborted calls) -/
+theorem C07_mappool_history_wf {α : Type} (h : List (Op α)) :
+    WF (h.foldl (fun s o => runOp o s) (St.init : St α)) := WF_history h
+
+/-- **The unconditional `p.mi++` is needed** (the seeded change C18-m8 in the model): with the index
+advanced only when the pool grows, on any parser whose pool holds a map both objects of a two-object
+document are the same map, and the first object shows the second one's members -/
+theorem C07_mappool_index_needed {α : Type} (s : St α) (hm : s.mi = 0) (hp : 0 < s.pool.length) (a b : α) :
+    ¬ (runDocW (poolStep false true) [a, b] s).1.ids.Nodup ∧
+    (runDocW (poolStep false true) [a, b] s).1.val = [some b, some b] :=
+  ⟨bad_not_nodup s hm hp a b, bad_value s hm hp a b⟩
+
+example : used.mi = 0 ∧ 0 < used.pool.length := by decide
+
+end MapPoolSection
 
 end OjgVerif.C07
